@@ -84,6 +84,8 @@ const (
 	progSynErr  = "\u09a6\u09c7\u0996\u09be\u0993 1;\n\u09a6\u09c7\u0996\u09be\u0993 ;\n"
 	progRunErr  = "\u09a6\u09c7\u0996\u09be\u0993 1;\n\u09a6\u09c7\u0996\u09be\u0993 x;\n\u09a6\u09c7\u0996\u09be\u0993 2;\n"
 	progRunErr2 = "\u09a7\u09b0\u09bf i = 0;\n\u09af\u09a4\u0995\u09cd\u09b7\u09a3 (i < 3) {\n  \u09a6\u09c7\u0996\u09be\u0993 i;\n  i = i + 1;\n  \u09a6\u09c7\u0996\u09be\u0993 1 / 0;\n}\n\u09a6\u09c7\u0996\u09be\u0993 9;\n"
+	// a string literal that opens with a line break, then a fault two lines further down
+	progRunErr3 = "\u09a6\u09c7\u0996\u09be\u0993 \"\nh\";\n\u09a6\u09c7\u0996\u09be\u0993 1;\n\u09a6\u09c7\u0996\u09be\u0993 x;\n\u09a6\u09c7\u0996\u09be\u0993 2;\n"
 	progInput2  = "\u09a6\u09c7\u0996\u09be\u0993 \u0987\u09a8\u09aa\u09c1\u099f();\n\u09a6\u09c7\u0996\u09be\u0993 \u0987\u09a8\u09aa\u09c1\u099f(\"50%> \");\n"
 )
 
@@ -142,6 +144,8 @@ func VH_outcome(class int) {
 		verifSetFile(true, progSynErr)
 	case 2:
 		verifSetFile(true, progRunErr)
+	case 4:
+		verifSetFile(true, progRunErr3)
 	default:
 		verifSetFile(true, progRunErr2)
 	}
@@ -156,6 +160,10 @@ func VH_outcome(class int) {
 		verifAssert("runtime-error-exit-70", status == 70)
 		verifAssert("runtime-error-stdout-up-to-the-fault", out == "1\n")
 		verifAssert("runtime-error-names-its-line", strings.Contains(errText, "[line 2]"))
+	case 4:
+		verifAssert("runtime-error-exit-70", status == 70)
+		verifAssert("runtime-error-stdout-up-to-the-fault", out == "\nh\n1\n")
+		verifAssert("runtime-error-names-its-line", strings.Contains(errText, "[line 4]"))
 	default:
 		verifAssert("runtime-error-in-loop-exit-70", status == 70)
 		verifAssert("runtime-error-in-loop-stdout-up-to-the-fault", out == "0\n")
@@ -208,6 +216,8 @@ var replPool = []string{
 	"\u09a7\u09b0\u09bf y = 5;",              // declaration: no echo
 	"\u09b2\u09c7\u09a8([1, 2, 3]);",         // built-in, echo
 	"\u09b2\u09c7\u09a8 = 0;",                // assignment to a built-in's name (the parser allows it): echo
+	"\u09a6\u09c7\u0996\u09be\u0993 1.",      // ends in digits and a point: syntax error (the line has no newline behind it)
+	"/* note *",                              // unterminated comment whose last character is '*'
 }
 
 // VH_repl: a session of k lines from the pool; each line's response must be what the same
@@ -309,6 +319,9 @@ var classifyPool = []struct {
 	{"\u09a6\u09c7\u0996\u09be\u0993 x;", 2, ""},
 	{"\u09a6\u09c7\u0996\u09be\u0993 1 / 0;", 2, ""},
 	{"\u09a6\u09c7\u0996\u09be\u0993 -\"50%\";", 2, ""},
+	// a NUL character is an ordinary character inside a string and inside a comment
+	{"\u09a6\u09c7\u0996\u09be\u0993 \"a\x00b\";", 0, "a\x00b\n"},
+	{"\u09a6\u09c7\u0996\u09be\u0993 7; // c\x00 \u09a6\u09c7\u0996\u09be\u0993 5;", 0, "7\n"},
 }
 
 // VH_classify (C19): a script of k lines drawn from the pool. Status 65 and nothing executed iff
